@@ -11,7 +11,10 @@ POOL = ["", " ", "'", '"', "'''", "((", "))", "1...", "...", "5...1", "-", "--1"
         # audit round: layouts repeating a placeholder, no-break / ideographic blanks next to a name, a carriage return before a non-ASCII character, indented second line
         "DD.MM.DD", "hh:mm:mm", "YYYY-YYYY", "\xa0id", "id\xa0", "\u3000id", "id,\xa0name", "\xa0kind < 3", "id\r\u00e4", "1...\r\u00e4", "  1\n 2", " id", " kind < 3", "kind < 3 or nosuch > 1", "kind < 3 and exit()",
         "kind < 3 or (lambda: exit(4))()", "kind" + " + 1" * 3000 + " > 0", "kind", "kind < 5 / (count - 1)",
-        "(?a)(?u)x", "x{99999999999}", "(" * 500 + "a" + ")" * 500, "\\\n kind < 3", "\\\nid"]
+        "(?a)(?u)x", "x{99999999999}", "(" * 500 + "a" + ")" * 500, "\\\n kind < 3", "\\\nid",
+        # fourth audit round: numbers no message can print in decimal (str() of an int of more than 4300 digits raises ValueError)
+        "kind + 10**5000", "kind == 0 or kind + 10**5000", "0...0x" + "f" * 3600, "32...0x" + "f" * 3600, "0x" + "f" * 3600 + "...", "0o" + "7" * 5000]
+BAD_CELLS = ["-1", "\x01", "z" * 12]
 GOOD_ROWS = {"delimited": ["1", "abc", "a", "1.5", "31.12.2020", "ab1", "a1", "k"], "fixed": ["12345", "abc", "        "], "excel": ["1", ""], "ods": ["1.5"]}
 
 BASE_CIDS = {
@@ -50,10 +53,16 @@ def unit_hostile_cid():
             try:
                 cid = interface.Cid(); cid.read("cid", rows)
                 # a CID that loads is then used: one conforming row (of the unchanged base CID) is validated and the run closed
+                # ... and then rows that differ from it in one cell (a value below every range, a control character, a long text), so that
+                # the messages about rejected values are built, too
+                good = list(GOOD_ROWS[c[0]])
                 class R(validio.Reader):
-                    def _raw_rows(self): return iter([list(GOOD_ROWS[c[0]])])
+                    def _raw_rows(self):
+                        yield list(good)
+                        for i in range(len(good)):
+                            for v in BAD_CELLS: yield good[:i] + [v] + good[i + 1:]
                 try:
-                    with R(cid, io.StringIO(""), on_error="raise") as r:
+                    with R(cid, io.StringIO(""), on_error="continue") as r:
                         for _ in r.rows(): pass
                 except errors.DataError: pass
             except errors.InterfaceError: return None
